@@ -33,7 +33,7 @@ META = {
              'beyond both ends, axis-parallel, integer, chord 1e-6..1e-11 of the extent}; x sub-ranges (l,r), l >= 0; (b) rectangles: integer '
              'corners 0..5 (random, identical, nested, touching, degenerate) and float rectangles; (c) triples: '
              'distinct integer triples in [-8,8]^2 (collinear ones included), consecutive curve points, nearly '
-             'collinear float triples; (d) value vectors with ties for rank; (e) simplifier runs (rdp, rdp_fixed, '
+             'collinear float triples, close pairs at x ~2^20..2^40 far from the third point (Menger judged with the forward-error floor of the evaluated cross product, per argument order); (d) value vectors with ties for rank; (e) simplifier runs (rdp, rdp_fixed, '
              'both distances, and menger.knee) whose internal primitive calls are monitored and counted separately '
              '(@simplifier). distinct = digest(primitive, inputs); non-trivial = some distance > 0 / 0 < IoU < 1 / '
              'non-collinear triple / values not already in ascending order'),
